@@ -18,11 +18,11 @@ func init() {
 	property("C10",
 		"Static conformance of command pass-through: (a) every iteration of the argument loop either appends the (constant-substituted) literal of the current token, closes the argument, or takes one inline arm, and then advances by exactly one token; the loop ends at the matching ')' with parenthesis depth counted on '(' / ')', and a non-empty last argument is flushed; (b) a command is rendered as TAB name [SPACE args joined by ', '] NEWLINE from constant formats; (c) statements of a chunk are rendered in order, one render per element; (d) the command name is the token literal, never constant-substituted. Hoisted-argument patching is covered by C06.a/b/c.",
 		[]string{"go/ssa lowering is faithful to the source"},
-		"C10.a", "C10.b", "C10.c", "C10.d", "C06.a", "C06.c", "C01.b")
+		"C10.a", "C10.b", "C10.c", "C10.d", "C10.e", "C06.a", "C06.c", "C12.a", "C15.d", "C01.b")
 	property("C11",
 		"Static conformance of AutoVar handling: (a) an AutoVar operand is recognised as an identifier configured in autovar_commands, parsed with the ordinary command parser, and its result var is the configured name or the argument at the configured position (bounds-checked), taken verbatim; (b) the parsed command is attached as the preamble of exactly the leaf whose operand is that result var (type VAR), and for switch it is placed immediately before the switch statement; (c) the leaf renders its preamble with the ordinary command renderer exactly once, before the comparison, iff present; each leaf owns one chunk and loops re-enter at the condition's entry chunk (C02.e, C01.e).",
 		[]string{"scheme argument of DESIGN §4 C11"},
-		"C11.a", "C11.b", "C11.c", "C02.e", "C06.c")
+		"C11.a", "C11.b", "C11.c", "C02.e", "C02.i", "C06.c")
 
 	register(&Rule{ID: "C09.a", Doc: "terminator table and append-iff-missing", Floor: 5, Run: c09a})
 	register(&Rule{ID: "C09.b", Doc: "recorded / returned text is terminator-formatted with its own string type", Floor: 6, Run: c09b})
@@ -33,6 +33,7 @@ func init() {
 	register(&Rule{ID: "C10.b", Doc: "command rendering from constant formats", Floor: 4, Run: c10b})
 	register(&Rule{ID: "C10.c", Doc: "chunk statements rendered in order, once each", Floor: 2, Run: c10c})
 	register(&Rule{ID: "C10.d", Doc: "command name is the token literal (no constant substitution)", Floor: 1, Run: c10d})
+	register(&Rule{ID: "C10.e", Doc: "block parsers keep every statement: each iteration parses one statement and appends its result", Floor: 6, Run: c10e})
 	register(&Rule{ID: "C11.a", Doc: "AutoVar recognition and result var", Floor: 5, Run: c11a})
 	register(&Rule{ID: "C11.b", Doc: "preamble attached to the leaf / placed before the switch", Floor: 4, Run: c11b})
 	register(&Rule{ID: "C11.c", Doc: "preamble rendered once, first, iff present", Floor: 2, Run: c11c})
@@ -852,4 +853,62 @@ func c11c(c *Ctx) {
 	}
 	c.Check(ok, "leaf/preamble-then-comparison", c.W.FuncPos(fn), "preamble (iff present) rendered once with the ordinary command renderer, then the comparison", why)
 	c.Check(len(cmp) == 1 && c.term(fn, cmp[0].Common().Args[1]) == "$0.truthyDest", "leaf/comparison-uses-own-dest", c.W.FuncPos(fn), "the comparison is rendered for this leaf's destination", "the comparison is not rendered for l.truthyDest")
+}
+
+// c10e: in the three block parsers every iteration of the statement loop goes through the
+// statement parser and appends what it returned to the block's statement list; there is no
+// path on which tokens are consumed but no statement is recorded.
+func c10e(c *Ctx) {
+	ps := c.Fn("parser.Parser.parseStatement")
+	pps := c.Fn("parser.Parser.parsePoryswitchStatement")
+	if ps == nil || pps == nil {
+		return
+	}
+	for _, name := range []string{"parser.Parser.parseBlockStatement", "parser.Parser.parseSwitchBlockStatement", "parser.Parser.parsePoryswitchStatements"} {
+		fn := c.Fn(name)
+		if fn == nil {
+			continue
+		}
+		var head *ssa.BasicBlock
+		for _, b := range fn.Blocks {
+			if isLoopHeader(b) {
+				head = b
+			}
+		}
+		if head == nil {
+			c.Bad(fn.Name()+"/loop", c.W.FuncPos(fn), "no statement loop found")
+			continue
+		}
+		// appends of a parse result to the statement list
+		isAppend := func(in ssa.Instruction) bool {
+			call, ok := in.(*ssa.Call)
+			if !ok || calleeName(call) != "builtin:append" || len(call.Call.Args) < 2 {
+				return false
+			}
+			t := c.term(fn, call.Call.Args[1])
+			return (strings.HasPrefix(t, "(*parser.Parser).parseStatement@") || strings.HasPrefix(t, "(*parser.Parser).parsePoryswitchStatement@")) && strings.HasSuffix(t, "#0")
+		}
+		first := head.Instrs[0]
+		_, skip := existsPath(pathQuery{from: point{head, len(head.Instrs) - 1}, avoid: isAppend, edgeOK: notErrorEdge, target: func(in ssa.Instruction) bool { return in == first }})
+		c.Check(!skip, fn.Name()+"/every-iteration-records-a-statement", c.W.Pos(firstPos(head)), "every iteration appends the parsed statement(s) to the block", "an iteration of the statement loop can complete without appending a parsed statement to the block (a statement would be silently dropped)")
+		// the appended list is what the block holds / the function returns
+		stored := false
+		for _, st := range storesToField(fn, "ast", "BlockStatement", "Statements") {
+			if call, ok := st.Val.(*ssa.Call); ok && isAppend(call) {
+				stored = true
+			}
+		}
+		for _, r := range returnsOf(fn) {
+			var leaves []ssa.Value
+			if len(r.Results) > 0 {
+				phiLeaves(r.Results[0], map[ssa.Value]bool{}, &leaves)
+			}
+			for _, lf := range leaves {
+				if call, ok := lf.(*ssa.Call); ok && isAppend(call) {
+					stored = true
+				}
+			}
+		}
+		c.Check(stored, fn.Name()+"/appended-list-is-kept", c.W.FuncPos(fn), "the extended list is stored in the block / returned", "the list extended with the parsed statements is not the one kept")
+	}
 }
